@@ -44,13 +44,15 @@ class Collector(Client):
     def __init__(self, inline: Callable[[FuncInfo], bool] = lambda fi: default_inline(fi), depth: int = 3,
                  raises: Callable[["Collector", Interp, Value, ast.AST], List[str]] = None,
                  yield_raises: bool = False, record_branches: bool = False,
-                 intercept: Optional[Callable[[Interp, Value, Sequence[Value], Any, ast.Call, State], Optional[List[Tuple[Value, State]]]]] = None) -> None:
+                 intercept: Optional[Callable[[Interp, Value, Sequence[Value], Any, ast.Call, State], Optional[List[Tuple[Value, State]]]]] = None,
+                 record_locals: Optional[Sequence[str]] = None) -> None:
         self._inline = inline
         self.max_inline_depth = depth
         self._raises = raises
         self._yield_raises = yield_raises
         self._record_branches = record_branches
         self._intercept = intercept
+        self._record_locals = set(record_locals or ())
         self.nodes: Dict[int, Tuple[ast.AST, FuncInfo]] = {}
 
     def init_cs(self):
@@ -88,6 +90,12 @@ class Collector(Client):
 
     def on_store(self, interp, key, val, node, st):
         return self._add(interp, st, ("store", key, val, None, interp.tag(node), interp.frame.no), node)
+
+    def on_local(self, interp, name, val, node, st):
+        # rebinding of a local the rule asked about, in the outermost analysed frame only: ("local", name, value)
+        if name in self._record_locals and len(interp.frames) == 1:
+            return self._add(interp, st, ("local", name, val, None, interp.tag(node), interp.frame.no), node)
+        return st
 
     def on_delete(self, interp, key, node, st):
         return self._add(interp, st, ("delete", key, None, None, interp.tag(node), interp.frame.no), node)
@@ -139,8 +147,8 @@ def inline_except(*names: str) -> Callable[[FuncInfo], bool]:
 def run_paths(program: Program, fn: FuncInfo, self_cls: Optional[ClassInfo] = None, *,
               inline: Callable[[FuncInfo], bool] = default_inline, depth: int = 3,
               raises=None, yield_raises: bool = False, record_branches: bool = False,
-              bind: Optional[Dict[str, Value]] = None, intercept=None) -> Tuple[List[Path], Collector, Interp]:
-    col = Collector(inline, depth, raises, yield_raises, record_branches, intercept)
+              bind: Optional[Dict[str, Value]] = None, intercept=None, record_locals: Optional[Sequence[str]] = None) -> Tuple[List[Path], Collector, Interp]:
+    col = Collector(inline, depth, raises, yield_raises, record_branches, intercept, record_locals)
     it = _RecordingInterp(program, col)
     out = it.run(fn, self_cls, bind)
     paths: List[Path] = []
